@@ -179,12 +179,110 @@ partial def pDI : P DI
   | _ => none
 end
 
+/-! ### printing decoded values as value trees (the same notation the harness prints) -/
+
+def natHexW (w n : Nat) : String :=
+  String.ofList ((List.range w).map fun i => nibble (n / 16 ^ (w - 1 - i) % 16))
+
+def shStr : Option Bytes → String
+  | none => "-"
+  | some b => "s" ++ bytesToHex b
+
+def shBStr : Option Bytes → String
+  | none => "-"
+  | some b => "x" ++ bytesToHex b
+
+def shNodeId (n : NodeId) : String :=
+  match n.id with
+  | .num v => s!"n {n.ns} {v}"
+  | .str s => s!"s {n.ns} {shStr s}"
+  | .guid g => s!"g {n.ns} x{bytesToHex g}"
+  | .bstr s => s!"b {n.ns} {shBStr s}"
+
+def shScalar : Scalar → String
+  | .bool b => s!"bool {boolStr b}"
+  | .sbyte i => s!"i8 {i}"
+  | .byte n => s!"u8 {n}"
+  | .int16 i => s!"i16 {i}"
+  | .uint16 n => s!"u16 {n}"
+  | .int32 i => s!"i32 {i}"
+  | .uint32 n => s!"u32 {n}"
+  | .int64 i => s!"i64 {i}"
+  | .uint64 n => s!"u64 {n}"
+  | .float n => s!"f32 g{natHexW 8 n}"
+  | .double n => s!"f64 f{natHexW 16 n}"
+  | .str s => s!"str {shStr s}"
+  | .dateTime t => s!"dt {t}"
+  | .guid g => s!"guid x{bytesToHex g}"
+  | .bstr s => s!"bs {shBStr s}"
+  | .xml s => s!"xml {shStr s}"
+  | .nodeId n => s!"nid {shNodeId n}"
+  | .expNodeId n => s!"xnid {shNodeId n.node} {shStr n.uri} {n.server}"
+  | .status n => s!"sc {n}"
+  | .qname ns name => s!"qn {ns} {shStr name}"
+  | .ltext l t => s!"lt {shStr l} {shStr t}"
+  | .extObj e =>
+    let body := match e.body with
+      | .none => "none"
+      | .bstr s => "b " ++ shBStr s
+      | .xml s => "x " ++ shStr s
+    s!"eo {shNodeId e.node} {body}"
+
+def shOpt {α : Type} (f : α → String) : Option α → List String
+  | none => []
+  | some x => [f x]
+
+def bit (b : Bool) (k : Nat) : Nat := if b then k else 0
+
+def shDVRest (hasValue : Bool) (value : List String) (r : DVRest) : String :=
+  let bits := bit hasValue 1 + bit r.status.isSome 2 + bit r.srcTs.isSome 4 + bit r.srvTs.isSome 8
+    + bit r.srcPs.isSome 16 + bit r.srvPs.isSome 32
+  joinSp ([toString bits] ++ value ++ shOpt toString r.status ++ shOpt toString r.srcTs ++ shOpt toString r.srcPs
+    ++ shOpt toString r.srvTs ++ shOpt toString r.srvPs)
+
+def shDIF (hasInner : Bool) (f : DIF) : List String :=
+  let bits := bit f.symbolic.isSome 1 + bit f.ns.isSome 2 + bit f.ltext.isSome 4 + bit f.locale.isSome 8
+    + bit f.addInfo.isSome 16 + bit f.innerStatus.isSome 32 + bit hasInner 64
+  [toString bits] ++ shOpt toString f.symbolic ++ shOpt toString f.ns ++ shOpt toString f.locale
+    ++ shOpt toString f.ltext ++ shOpt shStr f.addInfo ++ shOpt toString f.innerStatus
+
+mutual
+partial def shV : V → String
+  | .empty => "empty"
+  | .sc s => shScalar s
+  | .var v => "var " ++ shV v
+  | .dv d => "dv " ++ shDV d
+  | .di d => "di " ++ shDI d
+  | .arr ty elems dims =>
+    let ds := match dims with
+      | none => ["nodims"]
+      | some ds => ["dims", toString ds.length] ++ ds.map toString
+    joinSp (["arr", toString ty, toString elems.length] ++ elems.map shV ++ ds)
+partial def shDV : DV → String
+  | .mk0 r => shDVRest false [] r
+  | .mk1 v r => shDVRest true [shV v] r
+partial def shDI : DI → String
+  | .leaf f => joinSp (shDIF false f)
+  | .nest f i => joinSp (shDIF true f ++ [shDI i])
+end
+
 def pOpts (s : String) : Option Opts :=
+  if s = "default" then some Opts.default else if s = "minimal" then some Opts.minimal else
   match parseNatList? s with
   | some [a, b, c, d, e] => some { maxStr := a, maxBytes := b, maxArr := c, maxDepth := d, maxMsg := e }
   | _ => none
 
 def showEnc (bs : Bytes) (len : Nat) : String := s!"ok x{bytesToHex bs} {len}"
+
+/-- `tree` = the decoded value in value-tree notation (empty for results that are plain bytes) -/
+def showDecT {α : Type} (input : Bytes) (reenc : α → Bytes) (tree : α → String) : Res α → String
+  | .ok v rest =>
+    let t := tree v
+    s!"ok {input.length - rest.length} x{bytesToHex (reenc v)}" ++ (if t.isEmpty then "" else " = " ++ t)
+  | .err => "err"
+  | .fault .stack => "abort"
+  | .fault .alloc => "abort"
+  | .fault .panic => "panic"
 
 def showDec {α : Type} (input : Bytes) (reenc : α → Bytes) : Res α → String
   | .ok v rest => s!"ok {input.length - rest.length} x{bytesToHex (reenc v)}"
@@ -244,15 +342,15 @@ partial def encStep (toks : List String) : String :=
     | some o =>
       if ty = "Variant" then
         match pV r with
-        | some (v, []) => let b := encV true v; showDec b (encV true) (decV o drvCap true drvFuel 0 b)
+        | some (v, []) => let b := encV true v; showDecT b (encV true) shV (decV o drvCap true drvFuel 0 b)
         | _ => "bad-op"
       else if ty = "DataValue" then
         match pDV r with
-        | some (v, []) => let b := encDV true v; showDec b (encDV true) (decDV o drvCap true drvFuel 0 b)
+        | some (v, []) => let b := encDV true v; showDecT b (encDV true) shDV (decDV o drvCap true drvFuel 0 b)
         | _ => "bad-op"
       else if ty = "DiagnosticInfo" then
         match pDI r with
-        | some (v, []) => let b := encDI true v; showDec b (encDI true) (decDI o drvCap true drvFuel 0 b)
+        | some (v, []) => let b := encDI true v; showDecT b (encDI true) shDI (decDI o drvCap true drvFuel 0 b)
         | _ => "bad-op"
       else "bad-op"
   | ["srt", name, hex] => encStep ["sdec", name, "[1048576,1048576,65536,64,0]", hex]
@@ -282,9 +380,9 @@ partial def encStep (toks : List String) : String :=
       match tcpStep ty o b with
       | some line => line
       | none =>
-      if ty = "Variant" then showDec b (encV true) (decV o drvCap true drvFuel 0 b)
-      else if ty = "DataValue" then showDec b (encDV true) (decDV o drvCap true drvFuel 0 b)
-      else if ty = "DiagnosticInfo" then showDec b (encDI true) (decDI o drvCap true drvFuel 0 b)
+      if ty = "Variant" then showDecT b (encV true) shV (decV o drvCap true drvFuel 0 b)
+      else if ty = "DataValue" then showDecT b (encDV true) shDV (decDV o drvCap true drvFuel 0 b)
+      else if ty = "DiagnosticInfo" then showDecT b (encDI true) shDI (decDI o drvCap true drvFuel 0 b)
       else if ty = "Chunk" then showDec b id (decChunk o drvCap b)
       else "bad-op"
     | _, _ => "bad-op"
